@@ -237,6 +237,9 @@ def rule_gate_name(ctx):
                       "the vDSO address is auxv.get_linux_gate_address()", "vDSO address comes from %s" % show(g)[:100])
 
 
+KERNEL_DELETED_MARKER = " (deleted)"   # fs/d_path.c: prepend(.., " (deleted)", 10)
+
+
 def rule_deleted_suffix(ctx, R="C13/deleted-suffix"):
     """'same name' in the merge rule is equality of the names aggregate() stores, i.e. of sanitize_path(name): the kernel appends
     exactly ONE ' (deleted)' marker to the path of an unlinked file, so exactly one is removed — removing more (or anything else)
@@ -263,9 +266,19 @@ def rule_deleted_suffix(ctx, R="C13/deleted-suffix"):
                 txt = q[1]
             if q[0] == "named" and "DELETED_SUFFIX" in str(q[1]):
                 txt = txt or "named"
-        cst = [c for c in ctx.prog.j.get("statics", [])]
         okc = txt is not None
         ctx.check(okc, R, "marker-constant", b.where(bi), "the stripped suffix is the DELETED_SUFFIX constant", "the stripped suffix is %s" % show(suf)[:80], nontrivial=False)
+        # ... whose VALUE is the kernel's marker (fs/d_path.c appends " (deleted)", blank included, to the path of an unlinked file): anything
+        # shorter also matches names that merely end that way (`cache(deleted)`), anything else matches nothing
+        val = None
+        for q in walk(suf):
+            if q[0] in ("str", "bytes") and isinstance(q[1], str):
+                val = q[1]
+            if q[0] == "named":
+                from rules.c14 import _named_str
+                val = val or _named_str(ctx.prog, q[1])
+        ctx.check(val == KERNEL_DELETED_MARKER, R, "marker-value", b.where(bi), "the marker is the kernel's %r" % KERNEL_DELETED_MARKER,
+                  "the marker stripped from mapped paths is %r, the kernel appends %r: names that only end in the shorter text are rewritten to their sibling's name and their lines merge" % (val, KERNEL_DELETED_MARKER))
         subj = strip(a[0])
         ctx.check(any(q == ("param", 1) for q in walk(subj)), R, "strips-the-name", b.where(bi), "the suffix is stripped from the mapped path itself", "strip_suffix is applied to %s" % show(subj)[:80])
     # aggregate() stores the sanitised name for file mappings
